@@ -95,12 +95,9 @@ Proof.
     rewrite (align_offset_ok 8 buf pos ltac:(lia) H1). cbn [bind]. fold p.
     rewrite (validate_base_ok be k a depth (pos + p) buf Hwa Hea H3). cbn [bind]. fold ea.
     rewrite (Hb vt depth (pos + p + len ea) buf (S vf) Hwb Heb H5 Hf). cbn [bind]. fold eb.
-    assert (Epos : pos + (p + (len ea + len eb)) = offset + (used + (p + len ea + len eb))) by (subst pos; lia).
+    assert (Epos : pos + p + len ea + len eb = offset + (used + (p + len ea + len eb))) by (subst pos; lia).
     rewrite Epos in *.
-    apply (IH Hr Hwr); try assumption.
-    + replace (pos + p + len ea + len eb) with (offset + (used + (p + len ea + len eb))) in H6 by (subst pos; lia). exact H6.
-    + lia.
-    + lia.
+    apply (IH Hr Hwr); try assumption; lia.
 Qed.
 
 Lemma vfields_cons one offset f r used :
@@ -222,3 +219,207 @@ Qed.
 Theorem validate_complete be v t depth pre suf : wt v t = true -> encodable be (len pre) depth v = true ->
   validate 66 be depth (len pre) (pre ++ spec_enc be (len pre) v ++ suf) t = Ok (len (spec_enc be (len pre) v)).
 Proof. intros Hwt He. apply validate_complete_gen; [exact Hwt|exact He|apply has_at_intro|apply fuel_ok_66]. Qed.
+
+(** ** the dynamic (Param) decoder *)
+Lemma u_read_u32_ok be c n : n < 2 ^ 32 ->
+  has_at (ubuf c) (uoff c) (zeros (padlen 4 (uoff c)) ++ enc be 4 n) ->
+  u_read_fixed be 4 c = Ok (n, set_off c (uoff c + padlen 4 (uoff c) + 4)).
+Proof. intros Hn H. apply (u_read_fixed_ok be 4 c n); [auto|exact Hn|exact H]. Qed.
+
+Lemma pfields_cons one f r c acc :
+  pfields one (f :: r) c acc = do x <- one f c; pfields one r (snd x) (fst x :: acc).
+Proof. reflexivity. Qed.
+Lemma pfields_nil one c acc : pfields one [] c acc = Ok (rev acc, c).
+Proof. reflexivity. Qed.
+
+Lemma sub_loop_S {A} (one : uctx -> outcome (A * uctx)) lf c acc :
+  sub_loop one (S lf) c acc =
+  if remainder_len c =? 0 then Ok (rev acc) else do r <- one c; sub_loop one lf (snd r) (fst r :: acc).
+Proof. reflexivity. Qed.
+Lemma sub_loop_done {A} (one : uctx -> outcome (A * uctx)) lf c acc :
+  remainder_len c = 0 -> sub_loop one lf c acc = Ok (rev acc).
+Proof. intros H. destruct lf; cbn [sub_loop]; rewrite H; reflexivity. Qed.
+
+Notation mkc := Build_uctx.
+
+Definition pc (be : bool) (v : val) : Prop :=
+  forall t buf off nf d vf, wt v t = true -> encodable be off d v = true ->
+    fds_below nf v = true ->
+    has_at buf off (spec_enc be off v) -> fuel_ok vf d ->
+    unmarshal_p vf be t (mkc buf off nf d) = Ok (v, mkc buf (off + len (spec_enc be off v)) nf d).
+
+Lemma p_elems be vs e : Forall (pc be) vs -> Forall (fun x => wt x e = true) vs ->
+  forall vf buf off nf d lf acc, fuel_ok (S vf) d ->
+    encodable_list be off d vs = true ->
+    forallb (fds_below nf) vs = true ->
+    has_at buf off (spec_enc_list be off vs) ->
+    off + len (spec_enc_list be off vs) = len buf ->
+    (N.to_nat (len buf - off) < lf)%nat ->
+    sub_loop (unmarshal_p (S vf) be e) lf (mkc buf off nf d) acc = Ok (rev acc ++ vs).
+Proof.
+  induction vs as [|x r IH]; intros Hpc Hwt vf buf off nf d lf acc Hf He Hfd H Hn Hlf.
+  - cbn [spec_enc_list] in Hn. rewrite len_nil in Hn. rewrite sub_loop_done; [now rewrite app_nil_r|].
+    unfold remainder_len. cbn [ubuf uoff]. lia.
+  - destruct lf as [|lf]; [lia|]. rewrite sub_loop_S.
+    apply Forall_cons_iff in Hpc, Hwt. destruct Hpc as [Hx Hr], Hwt as [Hwx Hwr].
+    cbn [spec_enc_list encodable_list forallb] in *. apply andb_prop in He, Hfd. destruct He as [Hex Her], Hfd as [Hfx Hfr].
+    pose proof (spec_enc_nonempty be x e _ _ Hwx Hex) as Hne.
+    set (ex := spec_enc be off x) in *.
+    destruct (has_at_app _ _ _ _ H) as [H1 H2]. rewrite len_app in Hn.
+    unfold remainder_len. cbn [ubuf uoff]. destruct (N.eqb_spec (len buf - off) 0) as [|_]; [lia|].
+    rewrite (Hx e buf off nf d (S vf) Hwx Hex Hfx H1 Hf). cbn [bind fst snd]. fold ex.
+    rewrite (IH Hr Hwr vf buf (off + len ex) nf d lf (x :: acc) Hf Her Hfr H2); [|lia|lia].
+    cbn [rev]. now rewrite <- app_assoc.
+Qed.
+
+Lemma p_entries be kvs k vt :
+  Forall (fun kv => pc be (fst kv) /\ pc be (snd kv)) kvs ->
+  Forall (fun kv => wt (fst kv) (TBase k) = true /\ wt (snd kv) vt = true) kvs ->
+  forall vf buf off nf d lf acc, fuel_ok (S vf) d ->
+    encodable_entries be off d kvs = true ->
+    forallb (fun kv => fds_below nf (fst kv) && fds_below nf (snd kv)) kvs = true ->
+    has_at buf off (spec_enc_entries be off kvs) ->
+    off + len (spec_enc_entries be off kvs) = len buf ->
+    (N.to_nat (len buf - off) < lf)%nat ->
+    sub_loop (fun c => do c <- u_align 8 c;
+                       do kr <- u_base be k c;
+                       do vr <- unmarshal_p (S vf) be vt (snd kr);
+                       Ok ((fst kr, fst vr), snd vr)) lf (mkc buf off nf d) acc = Ok (rev acc ++ kvs).
+Proof.
+  induction kvs as [|[a b] r IH]; intros Hpc Hwt vf buf off nf d lf acc Hf He Hfd H Hn Hlf.
+  - cbn [spec_enc_entries] in Hn. rewrite len_nil in Hn. rewrite sub_loop_done; [now rewrite app_nil_r|].
+    unfold remainder_len. cbn [ubuf uoff]. lia.
+  - destruct lf as [|lf]; [lia|]. rewrite sub_loop_S.
+    apply Forall_cons_iff in Hpc, Hwt. destruct Hpc as [[_ Hb] Hr], Hwt as [[Hwa Hwb] Hwr]. cbn [fst snd] in *.
+    cbn [spec_enc_entries encodable_entries forallb] in *. cbv zeta in He. apply andb3 in He. destruct He as (Hea & Heb & Her).
+    cbn [fst snd] in Hfd. apply andb3 in Hfd. destruct Hfd as (Hfa & Hfb & Hfr).
+    unfold spec_enc_entry in *. cbn [fst snd] in *. cbv zeta in *. rewrite len_zeros in *.
+    set (p := padlen 8 off) in *.
+    pose proof (spec_enc_nonempty be a _ _ _ Hwa Hea) as Hne.
+    set (ea := spec_enc be (off + p) a) in *. set (eb := spec_enc be (off + p + len ea) b) in *.
+    rewrite <- !app_assoc in H. destruct (has_at_app4 _ _ _ _ _ _ H) as (H1 & H3 & H5 & H6).
+    lens.
+    unfold remainder_len. cbn [ubuf uoff]. destruct (N.eqb_spec (len buf - off) 0) as [|_]; [lia|].
+    rewrite (u_align_ok 8 (mkc buf off nf d) ltac:(lia) H1). unfold set_off; cbn [bind ubuf uoff unfds udepth]. fold p.
+    rewrite (u_base_ok be k a d (mkc buf (off + p) nf d) Hwa Hea Hfa H3). unfold set_off; cbn [bind ubuf uoff unfds udepth fst snd]. fold ea.
+    rewrite (Hb vt buf (off + p + len ea) nf d (S vf) Hwb Heb Hfb H5 Hf). cbn [bind fst snd]. fold eb.
+    rewrite (IH Hr Hwr vf buf (off + p + len ea + len eb) nf d lf ((a, b) :: acc) Hf Her Hfr H6); [|lia|lia].
+    cbn [rev]. now rewrite <- app_assoc.
+Qed.
+
+Lemma p_fields be vs : Forall (pc be) vs -> forall ts, Forall2 (fun x t => wt x t = true) vs ts ->
+  forall vf buf off nf d acc, fuel_ok (S vf) d ->
+    encodable_list be off d vs = true ->
+    forallb (fds_below nf) vs = true ->
+    has_at buf off (spec_enc_list be off vs) ->
+    pfields (unmarshal_p (S vf) be) ts (mkc buf off nf d) acc
+    = Ok (rev acc ++ vs, mkc buf (off + len (spec_enc_list be off vs)) nf d).
+Proof.
+  induction vs as [|x r IH]; intros Hpc ts Hwt vf buf off nf d acc Hf He Hfd H.
+  - inversion Hwt; subst. rewrite pfields_nil. cbn [spec_enc_list]. rewrite len_nil, N.add_0_r, app_nil_r. reflexivity.
+  - inversion Hwt as [|? t ? ts' Hwx Hwr]; subst. apply Forall_cons_iff in Hpc. destruct Hpc as [Hx Hr].
+    rewrite pfields_cons. cbn [spec_enc_list encodable_list forallb] in *.
+    apply andb_prop in He, Hfd. destruct He as [Hex Her], Hfd as [Hfx Hfr].
+    set (ex := spec_enc be off x) in *.
+    destruct (has_at_app _ _ _ _ H) as [H1 H2].
+    rewrite (Hx t buf off nf d (S vf) Hwx Hex Hfx H1 Hf). cbn [bind fst snd]. fold ex.
+    rewrite (IH Hr ts' Hwr vf buf (off + len ex) nf d (x :: acc) Hf Her Hfr H2).
+    cbn [rev]. rewrite <- app_assoc, len_app, N.add_assoc. reflexivity.
+Qed.
+
+Theorem unmarshal_p_complete_gen be : forall v, pc be v.
+Proof.
+  induction v as [b k|b s|et vs IH|vs IH|kb vt kvs IH|vt x IH] using val_ind';
+    intros T buf off nf d vf Hwt He Hfd H Hf; (destruct vf as [|vf]; [destruct Hf; lia|]).
+  - destruct (wt_base_ty _ _ _ Hwt) as (-> & _). rewrite unmarshal_p_S_base.
+    now apply (u_base_ok be b _ d (mkc buf off nf d)).
+  - destruct (wt_text_ty _ _ _ Hwt) as (-> & _). rewrite unmarshal_p_S_base.
+    now apply (u_base_ok be b _ d (mkc buf off nf d)).
+  - (* array *)
+    pose proof (wt_array_inv _ _ _ Hwt) as Hel. rewrite (wt_array_ty _ _ _ Hwt). rewrite unmarshal_p_S_array.
+    rewrite encodable_array in He. apply andb4 in He. destruct He as (Hd & Hty & Hsz & Hes).
+    apply N.ltb_lt in Hd. apply N.leb_le in Hsz. cbn [fds_below] in Hfd.
+    rewrite spec_enc_array' in *.
+    set (p1 := padlen 4 off) in *. set (p2 := padlen (align et) (off + p1 + 4)) in *.
+    set (body := spec_enc_list be (off + p1 + 4 + p2) vs) in *.
+    rewrite app_assoc in H. destruct (has_at_app3 _ _ _ _ _ H) as (H1 & H5 & H6). lens.
+    pose proof (has_at_bound _ _ _ H6) as Hb.
+    rewrite (u_enter_ok (mkc buf off nf d) Hd). cbn [bind ubuf uoff unfds udepth]. unfold leave_res.
+    rewrite (u_read_u32_ok be (mkc buf off nf (d + 1)) (len body) (MAX_ARRAY_u32 _ Hsz) H1).
+    unfold set_off; cbn [bind ubuf uoff unfds udepth fst snd]. fold p1.
+    unfold check_array_len. destruct (N.ltb_spec MAX_ARRAY (len body)) as [|_]; [lia|]. cbn [bind].
+    rewrite (u_align_ok (align et) (mkc buf (off + p1 + 4) nf (d + 1)) (align_pos et) H5).
+    unfold set_off; cbn [bind ubuf uoff unfds udepth]. fold p2.
+    rewrite (u_sub_ok (len body) (mkc buf (off + p1 + 4 + p2) nf (d + 1))) by (cbn [ubuf uoff]; lia).
+    unfold set_off; cbn [bind ubuf uoff unfds udepth fst snd].
+    rewrite (p_elems be vs et IH Hel vf (firstnN (off + p1 + 4 + p2 + len body) buf) (off + p1 + 4 + p2) nf (d + 1)
+               (S (N.to_nat (len body))) []).
+    + unfold u_leave; cbn [bind fst snd ubuf uoff unfds udepth rev app]. do 3 f_equal; lia.
+    + now apply fuel_ok_deeper.
+    + exact Hes.
+    + exact Hfd.
+    + apply has_at_clip; [exact H6|]. fold body. lia.
+    + fold body. rewrite len_clip by lia. reflexivity.
+    + rewrite len_clip by lia. lia.
+  - (* struct *)
+    destruct (wt_struct_ty _ _ Hwt) as (ts & -> & Hel). rewrite unmarshal_p_S_struct.
+    rewrite encodable_struct in He. apply andb3 in He. destruct He as (Hd & Hne & Hes). apply N.ltb_lt in Hd.
+    cbn [fds_below] in Hfd.
+    rewrite spec_enc_struct in *. set (p := padlen 8 off) in *.
+    destruct (has_at_app _ _ _ _ H) as [H1 H2]. lens.
+    rewrite (u_enter_ok (mkc buf off nf d) Hd). cbn [bind ubuf uoff unfds udepth]. unfold leave_res.
+    rewrite (u_align_ok 8 (mkc buf off nf (d + 1)) ltac:(lia) H1). unfold set_off; cbn [bind ubuf uoff unfds udepth]. fold p.
+    assert (Ets : match ts with [] => false | _ => true end = true).
+    { destruct vs; [discriminate|]. inversion Hel. reflexivity. }
+    destruct ts as [|t0 ts0]; [discriminate|].
+    rewrite (p_fields be vs IH _ Hel vf buf (off + p) nf (d + 1) [] (fuel_ok_deeper _ _ Hf) Hes Hfd H2).
+    unfold u_leave; cbn [bind fst snd ubuf uoff unfds udepth rev app]. do 3 f_equal; lia.
+  - (* dict *)
+    pose proof (wt_dict_inv _ _ _ _ Hwt) as Hel. rewrite (wt_dict_ty _ _ _ _ Hwt). rewrite unmarshal_p_S_dict.
+    rewrite encodable_dict in He. apply andb4 in He. destruct He as (Hd & Hty & Hsz & Hes).
+    apply N.ltb_lt in Hd. apply N.leb_le in Hsz. cbn [fds_below] in Hfd.
+    rewrite spec_enc_dict' in *.
+    set (p1 := padlen 4 off) in *. set (p2 := padlen 8 (off + p1 + 4)) in *.
+    set (body := spec_enc_entries be (off + p1 + 4 + p2) kvs) in *.
+    rewrite app_assoc in H. destruct (has_at_app3 _ _ _ _ _ H) as (H1 & H5 & H6). lens.
+    pose proof (has_at_bound _ _ _ H6) as Hb.
+    rewrite (u_enter_ok (mkc buf off nf d) Hd). cbn [bind ubuf uoff unfds udepth]. unfold leave_res.
+    rewrite (u_read_u32_ok be (mkc buf off nf (d + 1)) (len body) (MAX_ARRAY_u32 _ Hsz) H1).
+    unfold set_off; cbn [bind ubuf uoff unfds udepth fst snd]. fold p1.
+    unfold check_array_len. destruct (N.ltb_spec MAX_ARRAY (len body)) as [|_]; [lia|]. cbn [bind].
+    rewrite (u_align_ok 8 (mkc buf (off + p1 + 4) nf (d + 1)) ltac:(lia) H5).
+    unfold set_off; cbn [bind ubuf uoff unfds udepth]. fold p2.
+    rewrite (u_sub_ok (len body) (mkc buf (off + p1 + 4 + p2) nf (d + 1))) by (cbn [ubuf uoff]; lia).
+    unfold set_off; cbn [bind ubuf uoff unfds udepth fst snd].
+    rewrite (p_entries be kvs kb vt IH Hel vf (firstnN (off + p1 + 4 + p2 + len body) buf) (off + p1 + 4 + p2) nf (d + 1)
+               (S (N.to_nat (len body))) []).
+    + unfold u_leave; cbn [bind fst snd ubuf uoff unfds udepth rev app]. do 3 f_equal; lia.
+    + now apply fuel_ok_deeper.
+    + exact Hes.
+    + exact Hfd.
+    + apply has_at_clip; [exact H6|]. fold body. lia.
+    + fold body. rewrite len_clip by lia. reflexivity.
+    + rewrite len_clip by lia. lia.
+  - (* variant *)
+    pose proof (wt_variant_inv _ _ _ Hwt) as Hwx. rewrite (wt_variant_ty _ _ _ Hwt). rewrite unmarshal_p_S_variant.
+    cbn [encodable] in He. apply andb3 in He. destruct He as (Hd & Hty & Hex). apply N.ltb_lt in Hd.
+    cbn [fds_below] in Hfd.
+    rewrite spec_enc_variant in *. rewrite len_sig_bytes in *.
+    destruct (has_at_app _ _ _ _ H) as [H1 H2]. rewrite len_sig_bytes in H2.
+    rewrite (u_enter_ok (mkc buf off nf d) Hd). cbn [bind ubuf uoff unfds udepth]. unfold leave_res.
+    rewrite (u_read_sig_ok (mkc buf off nf (d + 1)) (to_str vt) (utf8_valid_ascii _ (to_str_ascii vt)) H1).
+    unfold set_off; cbn [bind ubuf uoff unfds udepth fst snd].
+    rewrite (parse_description_single vt Hty). cbn [bind].
+    rewrite (IH vt buf (off + (len (to_str vt) + 2)) nf (d + 1) vf Hwx Hex Hfd H2 (fuel_ok_variant _ _ Hf Hd)).
+    unfold u_leave; cbn [bind fst snd ubuf uoff unfds udepth]. do 3 f_equal; [|lia].
+    rewrite len_app, len_sig_bytes. lia.
+Qed.
+
+Theorem unmarshal_p_complete be v t depth nf pre suf : wt v t = true -> encodable be (len pre) depth v = true ->
+  fds_below nf v = true ->
+  unmarshal_p 66 be t {| ubuf := pre ++ spec_enc be (len pre) v ++ suf; uoff := len pre; unfds := nf; udepth := depth |}
+  = Ok (v, {| ubuf := pre ++ spec_enc be (len pre) v ++ suf; uoff := len pre + len (spec_enc be (len pre) v);
+              unfds := nf; udepth := depth |}).
+Proof.
+  intros Hwt He Hfd. apply unmarshal_p_complete_gen; [exact Hwt|exact He|exact Hfd|apply has_at_intro|apply fuel_ok_66].
+Qed.
